@@ -496,7 +496,7 @@ class Mode:
 
 
 PURE_BUILTINS = {"getattr", "len", "isinstance", "id", "hasattr", "bool", "tuple", "frozenset", "min", "max", "abs", "callable", "type", "iter", "int"}
-SPEC_FUNCS = {"after", "values", "entry", "implies", "old", "call", "call2", "all", "any", "no_dups", "seq", "setof", "filt", "addall", "cat", "forall", "exists",
+SPEC_FUNCS = {"called", "listof", "intof", "after", "values", "entry", "implies", "old", "call", "call2", "all", "any", "no_dups", "seq", "setof", "filt", "addall", "cat", "forall", "exists",
               "is_tuple", "ite", "fresh", "contents", "keys", "dget", "dhas", "rng", "idof", "rev", "prefix", "isinst", "truth",
               "subseq_of", "perm", "count", "sorted_by", "index", "pair", "slice_adj", "typeis", "allocated", "ghost"}
 
@@ -576,7 +576,15 @@ def _patch_engine():
         meth = getattr(self, "pev_" + type(node).__name__, None)
         if meth is None:
             raise OutOfSubset(f"expression {type(node).__name__}: {ast.unparse(node)[:60]}")
-        return meth(node, st, m)
+        r = meth(node, st, m)
+        if r.kind == "v" and r.hint is None and isinstance(node, (ast.Subscript, ast.Call)):
+            ty = self.types.get("expr:" + ast.unparse(node))
+            if ty:
+                kind, hint = type_hint(ty)
+                if kind == "int":
+                    return SV("int", L.iunbox(r.t))
+                return SV("v", r.t, hint)
+        return r
     E.pev = pev
 
     def pev_Constant(self, node, st, m):
@@ -1153,6 +1161,12 @@ def _patch_engine():
         return self.pev(node.args[0], es.py, Mode(True, m.old, None, m.result, m.binds, m.under))
     E.sf_entry = sf_entry
 
+    def sf_called(self, node, st, m):
+        """called("callee text"): did that (contract) call happen on this path"""
+        label = self.pev(node.args[0], st, m).py
+        return sv_bool("$after:" + label in st.ghost)
+    E.sf_called = sf_called
+
     def sf_after(self, node, st, m):
         """after("callee text", e): e evaluated in the state right after that (contract) call returned on this path;
         on a path where the call did not happen: in the current state"""
@@ -1290,6 +1304,17 @@ def _patch_engine():
         a, b = [self.to_v(self.pev(x, st, m)) for x in node.args]
         return SV("v", L.sbox(L.app(L.app(L.sempty, a), b)), "tupleval")
     E.sf_pair = sf_pair
+
+    def sf_listof(self, node, st, m):
+        """listof(x): x read as a reference to a list object"""
+        a = self.pev(node.args[0], st, m)
+        return SV("v", self.to_v(a), "list")
+    E.sf_listof = sf_listof
+
+    def sf_intof(self, node, st, m):
+        a = self.pev(node.args[0], st, m)
+        return SV("int", self.as_int(a))
+    E.sf_intof = sf_intof
 
     def sf_contents(self, node, st, m):
         a = self.pev(node.args[0], st, m)
